@@ -107,14 +107,27 @@ def items_dim(dim, derived=True):
         value = {"derived": False, "id": _item_subvar_id(dim, p),
                  "references": {"alias": _item_alias(dim, p), "name": _item_name(dim, p),
                                 "description": None}}
-        dv = (dim.get("derived_items") or {}).get(p)
+        dv = {int(k): v for k, v in (dim.get("derived") or {}).items()}.get(p)
         if dv:
             value["derived"] = True
-            value["references"].update(dv)
+            value["id"] = _item_name(dim, p)
+            at = dv.get("at", "none")
+            if at in ("top", "bottom"):
+                value["references"]["anchor"] = at
+            elif at in ("before", "after"):
+                value["references"]["anchor"] = {"alias": _item_alias(dim, dv["ref"]),
+                                                 "position": at}
         els.append({"id": dim["ids"][p - 1], "missing": False, "value": value})
+    extra = {"subreferences": _subrefs(dim), "is_dichotomous": dim["kind"] == "mr"}
+    if dim.get("derived"):
+        # the variable's view lists the "any selected" insertions the server materialised
+        extra["view"] = {"transform": {"insertions": [
+            {"function": "any_selected", "name": _item_name(dim, p), "anchor": dv.get("at", "bottom"),
+             "kwargs": {"variable": dim["var"],
+                        "subvariable_ids": [_item_alias(dim, q) for q in dv.get("of", ())]}}
+            for p, dv in sorted((int(k), v) for k, v in dim["derived"].items())]}}
     return {"derived": derived,
-            "references": _references(dim, {"subreferences": _subrefs(dim),
-                                            "is_dichotomous": dim["kind"] == "mr"}),
+            "references": _references(dim, extra),
             "type": {"class": "enum", "elements": els, "subtype": {"class": "variable"}}}
 
 
